@@ -70,6 +70,8 @@ pub fn literals(tier: Tier) -> Vec<Lit> {
   // complex
   for a in ["1", "0", "2.5", "10"] { for b in ["1", "0", "3", "0.5"] { for sg in ["+", "-"] { for u in ["i", "j"] { push(format!("{}{}{}{}", a, sg, b, u), "complex", None, &mut v); } } } }
   for b in ["1", "3", "0.5", "0"] { for u in ["i", "j"] { push(format!("{}{}", b, u), "imaginary", None, &mut v); } }
+  // complex literals whose real part is written in another real-number form (rational, based, leading-dot float)
+  for a in ["1/2", "3/4", "6/3", "0x10", "0b11", "0o17", ".5", "1_0"] { for b in ["1", "0.5", "3"] { for sg in ["+", "-"] { push(format!("{}{}{}i", a, sg, b), "complex-real-part-forms", None, &mut v); } } }
   // a leading minus on every complex form
   for a in ["1", "2.5"] { for b in ["2", "0.5"] { for sg in ["+", "-"] { push(format!("-{}{}{}i", a, sg, b), "complex-negative-real", None, &mut v); } } }
   // based literals under a narrow kind annotation, in range and just out of range
@@ -175,7 +177,17 @@ pub fn expectation(l: &Lit, production: &str) -> Want {
       let s = strip_us(t);
       let s = s.trim_end_matches(|c| c == 'i' || c == 'j');
       let pos = s.char_indices().skip(1).find(|(_, c)| *c == '+' || *c == '-').map(|(i, _)| i);
-      let (re, im): (f64, f64) = match pos { Some(p) => (s[..p].parse().unwrap_or(f64::NAN), s[p..].parse().unwrap_or(f64::NAN)), None => (0.0, s.parse().unwrap_or(f64::NAN)) };
+      // each part may be written in any real-number form: decimal / float, rational p/q, hexadecimal, binary, octal
+      fn part(t: &str) -> f64 {
+        let (sign, body) = match t.strip_prefix('-') { Some(b) => (-1.0, b), None => (1.0, t.strip_prefix('+').unwrap_or(t)) };
+        let v = if let Some((p, q)) = body.split_once('/') { match (p.parse::<f64>(), q.parse::<f64>()) { (Ok(p), Ok(q)) if q != 0.0 => p / q, _ => f64::NAN } }
+          else if let Some(h) = body.strip_prefix("0x") { i64::from_str_radix(h, 16).map(|x| x as f64).unwrap_or(f64::NAN) }
+          else if let Some(h) = body.strip_prefix("0b") { i64::from_str_radix(h, 2).map(|x| x as f64).unwrap_or(f64::NAN) }
+          else if let Some(h) = body.strip_prefix("0o") { i64::from_str_radix(h, 8).map(|x| x as f64).unwrap_or(f64::NAN) }
+          else { body.parse().unwrap_or(f64::NAN) };
+        sign * v
+      }
+      let (re, im): (f64, f64) = match pos { Some(p) => (part(&s[..p]), part(&s[p..])), None => (0.0, part(s)) };
       if re.is_nan() || im.is_nan() { return Want::Unjudged("unparsable"); }
       Want::Exact(Canon::Num("c64".into(), format!("{},{}", f64_text(re), f64_text(im))))
     }
@@ -207,7 +219,7 @@ impl UnitRunner for C13 {
       let prod = match production_of(&stmt) { Some(p) => p, None => { out.count("rejected_by_grammar"); continue; } };
       if prod == "not-a-number" { out.count("parsed_as_something_else"); out.set("not_numbers", &l.text); continue; }
       let o = s.run(&stmt);
-      let case = stmt.replace(&format!("x{}", n), "x");
+      let case = match l.annot { Some(k) => format!("x<{}> := {}", k, l.text), None => format!("x := {}", l.text) };
       let want = expectation(l, prod);
       let locus = format!("{}{}", l.family, l.annot.map(|k| format!(":{}", if is_float(k) { "float" } else if is_unsigned(k) { "unsigned" } else { "signed" })).unwrap_or_default());
       out.set("productions", prod);
